@@ -28,6 +28,11 @@
 (* field (any cell, any replacement value, or appends / truncates), the    *)
 (* receiver processes the result exactly as the server / client does.      *)
 (* The property section is at the end.                                     *)
+(*                                                                         *)
+(* Several associations in one process whose exchanges overlap (clients    *)
+(* with own keys, own pool, own outstanding request; identifier storage)   *)
+(* are NtsPacketAssoc.tla's subject; it uses the packets, decoders and     *)
+(* receiving paths defined here.                                           *)
 (***************************************************************************)
 EXTENDS Integers, Sequences, FiniteSets, TLC
 
@@ -44,6 +49,8 @@ CONSTANTS
   StopAtAuth,                \* TRUE = as written (DecodePacket's loop ends at the authenticator);
                              \* FALSE = fault switch (fields after the authenticator are parsed too)
   CtLenExact,                \* TRUE = as written (make(cipherTextLen), zero filled); FALSE = fault switch (clamped to what is left)
+  StoreAfterUid,             \* TRUE = as written (ProcessResponse: compare the uid, authenticate, store the cookies);
+                             \* FALSE = fault switch (authenticate, store the cookies, compare the uid last)
   LenChoices(_),             \* replacement values tried for a length cell (argument: the original value)
   TruncMax                   \* how many cells a truncation may remove
 
@@ -87,7 +94,7 @@ Range(s) == {s[i] : i \in DOMAIN s}
 (***************************************************************************)
 ExportKeys(sess, dir) == 10 * sess + (IF dir = "c2s" THEN 0 ELSE 1)
 SC(sess) == [algo |-> 15, s2c |-> ExportKeys(sess, "s2c"), c2s |-> ExportKeys(sess, "c2s")]
-ScId(sc) == IF sc = SC(1) THEN 1 ELSE IF sc = SC(2) THEN 2 ELSE 0
+ScId(sc) == IF sc = SC(1) THEN 1 ELSE IF sc = SC(2) THEN 2 ELSE IF sc = SC(3) THEN 3 ELSE 0
 \* ntske.Provider of the receiving server: key id -> key value
 Provider == (1 :> 101) @@ (2 :> 102)
 ForeignServerKey == 201         \* a key this server does not hold (another server, or retired)
@@ -272,11 +279,13 @@ Client(b, key, reqid, genuine) ==
   IF d.err THEN Rej("rejected")
   ELSE IF d.hang THEN Rej("hang")
   ELSE IF ~d.hasU \/ ~d.hasA THEN Rej("rejected")
-  ELSE IF UidChecked /\ d.uid # reqid THEN Rej("rejected")
+  ELSE IF UidChecked /\ StoreAfterUid /\ d.uid # reqid THEN Rej("rejected")      \* errUnexpectedResponseID
   ELSE LET r == Authenticate(b, key, d)
            st == d.cookies \o r.cookies
        IN IF r.res = "accepted"
-          THEN Rcv(r.res, FALSE, 0, 0, Len(st), Len(st) = Len(genuine) /\ \A i \in DOMAIN st : st[i] = genuine[i])
+          THEN IF UidChecked /\ d.uid # reqid      \* (only with ~StoreAfterUid) the error is returned after StoreCookie
+               THEN Rcv("rejected", FALSE, 0, 0, Len(st), TRUE)
+               ELSE Rcv(r.res, FALSE, 0, 0, Len(st), Len(st) = Len(genuine) /\ \A i \in DOMAIN st : st[i] = genuine[i])
           ELSE Rcv(r.res, FALSE, 0, 0, 0, TRUE)
 
 \* a cookie on its own, as the server opens it
@@ -325,7 +334,7 @@ NoG == G("-", 0, "-")
 \* truth: what was really done to the packet, in the words of the property statement
 Truth(key, dir, uid, touched, ckey, csc) ==
   [key |-> key, dir |-> dir, uid |-> uid, touched |-> touched, ckey |-> ckey, csc |-> csc]
-Ck0 == [opened |-> FALSE, key |-> 0, sc |-> 0, cok |-> TRUE]
+Ck0 == [opened |-> FALSE, key |-> 0, sc |-> 0, cok |-> TRUE, stored |-> 0]
 
 SenderKinds(rl) ==
   IF rl = "req" THEN {"none", "swapkey", "swapdir", "foreignkey"}
@@ -450,7 +459,7 @@ Process ==
   /\ phase = "sent"
   /\ LET r == Receive(role, nf, wire) IN
      /\ outcome' \in Expand(r.out)
-     /\ ck' = [opened |-> r.opened, key |-> r.key, sc |-> r.sc, cok |-> r.cok]
+     /\ ck' = [opened |-> r.opened, key |-> r.key, sc |-> r.sc, cok |-> r.cok, stored |-> r.stored]
   /\ phase' = "done"
   /\ UNCHANGED <<role, nf, wire, mut, truth>>
 
@@ -501,6 +510,12 @@ CookieBinding ==
 \* accepted => what is stored / counted is exactly what was authenticated
 AuthenticOnly ==
   (Observed /\ role \in ServerSide \cup {"resp"} /\ outcome = "accepted") => ck.cok
+
+\* A client that does not accept a response takes nothing from it: "a response to a different request is
+\* rejected" (and so is everything else that fails a check) means that it leaves the client's NTS state - the
+\* cookies it will send next - as it was.  (To accept = to act on the packet: return nil OR take its cookies.)
+RejectedInert ==
+  (Observed /\ role = "resp" /\ outcome # "accepted") => ck.stored = 0
 
 \* ExportKeys: the two directions never share a key (needed for "different direction is rejected")
 DirectionsDistinct == \A s1, s2 \in {1, 2} : ExportKeys(s1, "c2s") # ExportKeys(s2, "s2c")
